@@ -134,6 +134,7 @@ func checkC06(c *Ctx) {
 			fo := fo
 			c.borrowKinds("C02", func() { c.c02Sibling(fo) }, "R06.5", sib+".Get:skipread-is-a-miss", []string{"R02.1"}, "fabricated-Zero", "fabricated-ReadZero")
 			c.borrowKinds("C05", func() { c.c05Sibling(fo) }, "R06.5", sib+".Get:skipread-read-issued", []string{"R05.1"}, "read-count")
+			c.c06SkipReadWaiter(fo)
 		}
 	}
 	c.borrowKinds("C10", func() { c.c10ExpireAt() }, "R06.1", "backends.Write:stored-expiry", []string{"R10.3"}, "stored-E", "no-ttl", "expiry-value")
@@ -609,6 +610,67 @@ func (c *Ctx) c06Detached() {
 			r.OK("R06.4", cons, "constant/delegating as required")
 		}
 	}
+}
+
+// c06SkipReadWaiter: "SkipRead forces a rebuild": a Get that finds the key locked returns what the owner published. That is a build
+// result on every owner path but one: with SyncRead an owner whose read inside the section hits publishes the value it READ. A
+// waiter that returns the publication without having established that its own context does not ask to skip reads is then served a
+// cached value although no rebuild took place.
+func (c *Ctx) c06SkipReadWaiter(fo *FO) {
+	r := c.R
+	cons := fo.Name + ".Get"
+	var hitPub *pw.Event
+	var waiter *pw.Path
+	nOwner, nWaiter := 0, 0
+	for _, p := range fo.Paths {
+		cl, err := fo.classify(p)
+		if err != nil || cl.lookup == nil || cl.kl == nil {
+			continue
+		}
+		if !cl.found {
+			nOwner++
+			for i, ev := range p.Events {
+				if !isRelease(ev) {
+					continue
+				}
+				if w := lastFieldWrite(p.Events[:i], cl.kl, "val"); w != nil && w.Value != nil {
+					if pv := fo.valueProv(p, p.Events[:i], cl, w.Value); pv.tag == "ReadVal" && hitPub == nil {
+						hitPub = w
+					}
+				}
+			}
+			continue
+		}
+		// waiter: returns the publication with a nil or unknown error
+		if len(p.Ret) != 2 || p.Ret[0] == nil {
+			continue
+		}
+		if pv := fo.valueProv(p, p.Events, cl, p.Ret[0]); pv.tag != "Published" {
+			continue
+		}
+		nWaiter++
+		guarded := false
+		for _, ev := range p.Events {
+			if ev.Kind == pw.EvCall && ev.Role == "Repo:SkipRead" && len(ev.Results) == 1 {
+				if t, known := p.Truth(ev.Results[0]); known && !t {
+					guarded = true
+				}
+			}
+		}
+		if !guarded && waiter == nil {
+			waiter = p
+		}
+	}
+	if nOwner == 0 || nWaiter == 0 {
+		r.Unknown("R06.5", cons, fmt.Sprintf("vacuous: %d owner paths, %d waiter paths returning the publication", nOwner, nWaiter))
+		return
+	}
+	if hitPub != nil && waiter != nil {
+		d, t := c.pathDetail(fo, waiter, "a Get that found the key locked returns the owner's publication without having established SkipRead(ctx) = false, and an owner (SyncRead hit at "+c.Pos(hitPub.Pos)+") publishes the value it read from the backend: a SkipRead Get waiting behind a plain reader is served the cached value, no rebuild is forced")
+		r.Bad("R06.5", cons, "skipread-waiter-served-cached-hit", c.Pos(waiter.RetPos), d, t)
+		return
+	}
+	r.OK("R06.5", cons+":skipread-waiter", fmt.Sprintf("%d owner paths, %d waiter paths: no read value is published to a waiter that may carry SkipRead", nOwner, nWaiter))
 }
 
 // c06SkipRead: every in-module Read tests SkipRead first.
